@@ -93,7 +93,9 @@ DefaultEnv == [comp |-> "COMMAND", msg |-> "Slow query", holder |-> "command", n
 
 \* a command document with one zone slot; documents only count next to an insert verb
 Cmd(verb, slot, val) ==
-  Obj(<< <<verb, NsName>>, <<slot, val>>, <<"$db", NsName>>, <<"lsid", Obj(<< <<"id", Obj(<< <<"$uuid", Lit("0e9b2a1c-57f1-4d3b-b0a1-8a4f6d2e7c11")>> >>)>> >>)>> >>)
+  Obj(<< <<verb, NsName>>, <<slot, val>>, <<"$db", NsName>>, <<"lsid", Obj(<< <<"id", Obj(<< <<"$uuid", Lit("0e9b2a1c-57f1-4d3b-b0a1-8a4f6d2e7c11")>> >>)>> >>)>>,
+         \* the command's comment (any BSON value; not part of the query-bearing fields the tool claims)
+         <<"comment", Arr(<< Str("envstr", "env"), Obj(<< <<"k", Num("env")>>, <<"t", Str("envstr", "env")>> >>) >>)>> >>)
 
 VerbFor(slot) ==
   CASE slot \in {"filter", "sort"} -> "find"
